@@ -114,7 +114,7 @@ func classifyDeath(c *ev.Check, o *run.Outcome) bool {
 	return true
 }
 
-func plan(tier string, seed int64) []run.Batch {
+func planBase(tier string, seed int64) []run.Batch {
 	// Watchdogs are generous (CPU contention must not turn into a verdict); what
 	// bounds a batch is the 120 s life of a test-mode server instance, and every
 	// history restarts its server several times.
@@ -1325,7 +1325,7 @@ func (h *hist) weekEnd(big bool) {
 	h.recheck(big)
 }
 
-func child(b run.Batch, r *ev.Result) {
+func childBase(b run.Batch, r *ev.Result) {
 	installHook()
 	switch b.Kind {
 	case "diskfault":
